@@ -587,7 +587,14 @@ func TestCheck(t *testing.T) {
 // the data races reported meanwhile and any disagreement between lookups by name and by id
 // left behind. The program is journalled first: a runtime fatal error (concurrent map
 // access) kills the process and the driver reports the journal as the replay.
+// freeStalled: a free-running program did not finish (its goroutines are parked for good): every
+// further program on this process would wait the same 45 s; the tier stops.
+var freeStalled bool
+
 func runFree(c *vt.Ctx, ws [][]Call, runs int) []*vt.Deviation {
+	if freeStalled {
+		return nil
+	}
 	if c.OutDir != "" {
 		b, _ := json.Marshal(map[string]any{"property": "C15", "case": Case{Kind: "free", Workers: ws}})
 		_ = os.WriteFile(filepath.Join(c.OutDir, fmt.Sprintf("journal-%d.json", c.Shard)), b, 0o644)
@@ -617,7 +624,8 @@ func runFree(c *vt.Ctx, ws [][]Call, runs int) []*vt.Deviation {
 		select {
 		case <-done:
 		case <-time.After(45 * time.Second):
-			c.Inconclusive("free-running identity-manager program did not finish within 45 s; see C07")
+			c.Inconclusive("free-running identity-manager program did not finish within 45 s (the deterministic tiers above decide deadlocks)")
+			freeStalled = true
 			return devs
 		}
 		// by name and by id must agree on what is left
